@@ -3,6 +3,8 @@ import DispatchVerif.Core.Base32P
 import DispatchVerif.Core.Base32HexP
 import DispatchVerif.Core.Utf8F
 import DispatchVerif.Core.Utf16P
+import DispatchVerif.Core.Utf16F
+import DispatchVerif.Core.Utf16E
 /-! # C20 — data transforms round-trip and never read outside their input
 
 Property theorems only. Models: `B64` / `B32` / `B32H` (encoder and decoder loops of `src/transform.c` with the
@@ -58,6 +60,28 @@ theorem utf8_to_utf16_fragmentation_independent (flat : List Nat) (lens : List N
 theorem utf8_to_utf16_never_reads_outside (flat : List Nat) (e : Nat) (he : e ≤ flat.length) (f pos : Nat) (out : List Nat) :
     Utf8P.runTo flat e f pos out ≠ .oob :=
   Utf8P.runTo_no_oob flat e he f pos out
+
+/-- **UTF-16 → UTF-8: every way of cutting the object into non-empty regions gives the result of the single-region object** —
+    for arbitrary bytes and either byte order, including cuts inside a code unit, between the halves of a surrogate pair
+    and inside the byte-order mark -/
+theorem utf16_to_utf8_fragmentation_independent (be : Bool) (flat : List Nat) (lens : List Nat) (hne : lens ≠ [])
+    (hp : ∀ n ∈ lens, 0 < n) (hsum : lens.sum = flat.length) :
+    Utf16F.fromUtf16F be flat lens = Utf16F.fromUtf16F be flat [flat.length] :=
+  Utf16F.frag_independent be flat lens hne hp hsum
+
+/-- **the UTF-16 → UTF-8 loop as written in the source** (its own `i`, `size`, `max`, `skip`, `src`) computes what the
+    position-shaped loop computes and never takes the out-of-bounds outcome, for every list of regions -/
+theorem utf16_to_utf8_source_loop_agrees (be : Bool) (rs : List (List Nat)) :
+    Utf16E.conv (Utf16P.fromUtf16 be rs) = some (Utf16F.fromUtf16F be rs.flatten (rs.map List.length)) :=
+  Utf16E.fromUtf16_eq be rs
+
+theorem utf16_to_utf8_never_reads_outside (be : Bool) (rs : List (List Nat)) (w : Nat) : Utf16P.fromUtf16 be rs ≠ .oob w :=
+  Utf16E.fromUtf16_never_oob be rs w
+
+/-- … hence fragmentation independence holds for the loop as written -/
+theorem utf16_to_utf8_source_loop_fragmentation_independent (be : Bool) (rs : List (List Nat)) (hne : rs ≠ [])
+    (hp : ∀ r ∈ rs, r ≠ []) : Utf16E.conv (Utf16P.fromUtf16 be rs) = Utf16E.conv (Utf16P.fromUtf16 be [rs.flatten]) :=
+  Utf16E.fromUtf16_fragmentation_independent be rs hne hp
 
 /-- encoded surrogates (U+D800 … U+DFFF, the F7 point included) are rejected -/
 theorem surrogates_rejected (c : Nat) (h : 0xd800 ≤ c ∧ c ≤ 0xdfff) (b : Bool) : Utf8P.emit c b = none :=
